@@ -394,9 +394,11 @@ def harvest_part(chk):
   """Registry.tla CIssue / CRefresh on the real client: a completed call is harvested by CourierClient._is_heartbeat_fresh
   whenever somebody asks is_alive, possibly much later; what it records is the time the call was SENT."""
   with installed() as (courier_utils, _, _):
-    for sent, harvested in ((10.0, 10.0), (10.0, 25.0), (10.0, 500.0)):
+    # Registry.tla's Threshold is the client's own: ages on either side of it, for thresholds below and above the library default
+    for sent, harvested, thr in ((10.0, 10.0, 180), (10.0, 25.0, 180), (10.0, 500.0, 180), (10.0, 250.0, 180), (10.0, 200.0, 180),
+                                 (10.0, 50.0, 30), (10.0, 30.0, 30), (10.0, 410.0, 600), (10.0, 700.0, 600)):
       courier_utils._worker_registry = courier_utils.WorkerRegistry()
-      client = courier_utils.CourierClient(ADDR, call_timeout=5, heartbeat_threshold_secs=180)
+      client = courier_utils.CourierClient(ADDR, call_timeout=5, heartbeat_threshold_secs=thr)
       VClock.now = sent
       done = courier_utils.futures.Future()
       done.set_result(None)
@@ -409,8 +411,8 @@ def harvest_part(chk):
       if recorded != sent:
         chk.violation('registry:harvest-records-' + ('harvest-time' if recorded == harvested else 'other-time'),
                       f'a call sent at t={sent} and harvested at t={harvested} is recorded as a sign of life at t={recorded}; Registry.tla records the send time', ctx)
-      elif fresh != (harvested - sent < 180):
-        chk.violation('registry:harvest-freshness', f'sent {sent}, harvested {harvested}, threshold 180: is_heartbeat_fresh() = {fresh}', ctx)
+      elif fresh != (harvested - sent < thr):
+        chk.violation('registry:harvest-freshness', f'sent {sent}, harvested {harvested}, threshold {thr}: is_heartbeat_fresh() = {fresh}', ctx)
 
 
 def pool_ops_part(chk):
@@ -436,6 +438,23 @@ def pool_ops_part(chk):
             ('call_and_wait raising', lambda: pool.call_and_wait(lazy_fns.trace(lazylib.boom)(1)), True),
             ('run ok', lambda: pool.run(lazy_fns.trace(lazylib.inc)(1)), False),
             ('run raising', lambda: pool.run(lazy_fns.trace(lazylib.boom)(1)), True)]
+    from ml_metrics._src.chainables import orchestrate
+
+    def completed(how):
+      # the pool-level operation ends when the consumer is done with it: exhausted, closed early, or left through an exception
+      def fn():
+        gen = orchestrate.as_completed(pool, [lazy_fns.trace(lazylib.inc)(i) for i in range(4)])
+        if how == 'exhausted':
+          list(gen)
+        elif how == 'closed early':
+          next(gen)
+          gen.close()
+        else:
+          next(gen)
+          gen.throw(KeyError('the consumer fails'))
+      return fn
+    scen += [('as_completed exhausted', completed('exhausted'), False), ('as_completed closed-early', completed('closed early'), False),
+             ('as_completed consumer-raises', completed('consumer raises'), True)]
     for name, fn, raises in scen:
       try:
         fn()
@@ -447,7 +466,7 @@ def pool_ops_part(chk):
       if raised != raises:
         chk.violation(f'pool-op:unexpected-outcome:{name}', f'raised={raised}, expected {raises}', dict(kind='pool-op', op=name))
       if left:
-        chk.violation(f'pool-op:workers-left-acquired:{name.split()[0]}:{"raise" if raised else "return"}',
+        chk.violation(f'pool-op:workers-left-acquired:{name.split()[0]}:{"raise" if raised else "return"}' + (f':{name.split()[1]}' if name.startswith('as_completed') else ''),
                       f'after {name}: {left} still acquired', dict(kind='pool-op', op=name, left=left))
         pool.release_all()
     # a worker that is dead (declared so by the registry) when the operation ends must be released like any other
